@@ -88,9 +88,10 @@ func angle(line string) string {
 }
 
 // DotStuff encodes body for DATA: lines starting with '.' (after CRLF or bare LF) get a second
-// dot; the terminator CRLF.CRLF is appended (preceded by CRLF when the body does not end in a
-// line ending).
+// dot; the terminator CRLF.CRLF is appended (its leading CRLF is the body's own final CRLF when
+// the body ends in one; RFC 5321 does not accept a bare LF there).
 func DotStuff(body string) string {
+	body = Transmitted(body)
 	var b strings.Builder
 	atLineStart := true
 	for i := 0; i < len(body); i++ {
@@ -100,9 +101,6 @@ func DotStuff(body string) string {
 		}
 		b.WriteByte(c)
 		atLineStart = c == '\n'
-	}
-	if !atLineStart {
-		b.WriteString("\r\n")
 	}
 	b.WriteString(".\r\n")
 	return b.String()
@@ -132,11 +130,39 @@ func (d *SMTPDriver) Delivered() (from string, rcpts []string) {
 	return
 }
 
-// NormLE maps CRLF and LF to LF, keeps bare CR, and drops one final line terminator.
+// NormLE is the canonical form under "CRLF/LF line-ending normalisation": every run of CRs
+// directly before an LF, and that LF, become one LF (so CRLF, LF and the ambiguous CR CRLF all
+// read as one line ending); CRs elsewhere are kept; one final line terminator is ignored.
 func NormLE(s string) string {
-	s = strings.ReplaceAll(s, "\r\n", "\n")
-	s = strings.TrimSuffix(s, "\n")
-	return s
+	var b strings.Builder
+	b.Grow(len(s))
+	for i := 0; i < len(s); i++ {
+		if s[i] == '\r' {
+			j := i
+			for j < len(s) && s[j] == '\r' {
+				j++
+			}
+			if j < len(s) && s[j] == '\n' {
+				b.WriteByte('\n')
+				i = j
+				continue
+			}
+			b.WriteString(s[i:j])
+			i = j - 1
+			continue
+		}
+		b.WriteByte(s[i])
+	}
+	return strings.TrimSuffix(b.String(), "\n")
+}
+
+// Transmitted is the DATA payload as it goes on the wire before dot-stuffing: the body, plus a
+// CRLF when the body does not end in CRLF (the terminator is <CRLF>.<CRLF>).
+func Transmitted(body string) string {
+	if body != "" && !strings.HasSuffix(body, "\r\n") {
+		return body + "\r\n"
+	}
+	return body
 }
 
 // SplitTrace splits a stored source into the server's trace headers and the rest.
@@ -250,7 +276,7 @@ func (s *Sys) CheckDelivery(mo *model.Store, exp []Expect, names ...string) (pro
 				_, _, rest, ok := SplitTrace(o.Body)
 				if !ok {
 					d = append(d, fmt.Sprintf("source does not start with Return-Path and Received: %q", clip(o.Body)))
-				} else if NormLE(rest) != NormLE(e.Data) {
+				} else if NormLE(rest) != NormLE(Transmitted(e.Data)) {
 					d = append(d, fmt.Sprintf("content %q want %q", clip(rest), clip(e.Data)))
 				}
 			}
